@@ -89,9 +89,19 @@ def wildcard_match(s, pat):
     return re.fullmatch(".*".join(re.escape(p) for p in pat.split("*")), s, re.S) is not None
 
 
+_ORDER = {"<": lambda a, b: a < b, "<=": lambda a, b: a <= b, ">": lambda a, b: a > b, ">=": lambda a, b: a >= b}
+
+
 def ref_cmp(op, val, expected):
     if not isinstance(val, PRIM):
         val = str(val)
+    if op in _ORDER and isinstance(val, TupleCoord) and isinstance(expected, (tuple, list, TupleCoord)):
+        # a vector is ordered against another one axis by axis: the comparison holds when it holds on every axis
+        # (spelled out here rather than asked of the vector object, which is part of what is being checked)
+        try:
+            return all(_ORDER[op](x, y) for x, y in zip(tuple(val), tuple(expected)))
+        except TypeError:
+            return False
     try:
         if op is None:
             return bool(val)
@@ -550,6 +560,13 @@ def near_values(rng, v):
     elif isinstance(v, TupleCoord):
         t = tuple(v)
         out += [t, tuple(abs(x) for x in t), tuple(abs(x) + 1 for x in t), tuple(0.0 for _ in t)]
+        # equal on some axes, strictly larger / smaller on the others (ordering of vectors is per axis)
+        for k in range(len(t)):
+            out.append(tuple(x + (1.0 if i == k else 0.0) for i, x in enumerate(t)))
+            out.append(tuple(x - (1.0 if i == k else 0.0) for i, x in enumerate(t)))
+            out.append(tuple(x + (1.0 if i != k else 0.0) for i, x in enumerate(t)))
+        if len(t) >= 2:
+            out.append(tuple(x + (1.0 if i % 2 else -1.0) for i, x in enumerate(t)))
     elif isinstance(v, tuple):
         out += [v, tuple(x + 1 if isinstance(x, (int, float)) else x for x in v)]
     elif v is None:
